@@ -1,7 +1,7 @@
 (* C04 — executable model of Shark's differentiable models (definitions only).
    Carrier and arithmetic are Section variables: the proofs instantiate them with any commutative
-   ring (and with the ring of dual numbers over it), the extraction with Coq's Z (exact) and with
-   OCaml floats (passed by the driver as function arguments).
+   ring (and with the ring of dual numbers / of symbolic expressions over it), the extraction with
+   OCaml floats (passed by the driver as function arguments; exact on small dyadic inputs).
    Vectors are lists, matrices are lists of rows, a batch is a list of rows.
 
    Anchors: LinearModel.h (eval / parameterVector / setParameterVector / weighted*Derivative),
